@@ -241,7 +241,7 @@ def run(ctx):
             its = list(items)
             idx = [i for i, it in enumerate(its) if it[0] == "loop"][-1]
             _, var_, vt, hdr, body = its[idx]
-            bad = {"int": rng.choice(['"abc"', "2.5", "0.5 + 1", '"3"']), "float": rng.choice(['"x"', '"1.5"', "2j"]),
+            bad = {"int": rng.choice(['"abc"', "2.5", "0.5 + 1", '"3"', "250.001", "100000.5", "160001/4"]), "float": rng.choice(['"x"', '"1.5"', "2j"]),
                    "bool": None, "str": rng.choice(["3", "1.5", "2 + 2"])}[vt]
             if bad is None:
                 ctx.out_of_domain("no clear wrong-typed value for bool loops")
